@@ -40,6 +40,7 @@ enum { EXC_NONE = 0, EXC_UNKNOWN = 1, EXC_out_of_range = 2, EXC_invalid_argument
        EXC_inconsistency_exception = 5, EXC_runtime_error = 6, EXC_logic_error = 7, EXC_execution_exception = 8 };
 
 /* std::gcd / std::lcm on I_t: gcd(|m|,|n|), gcd(0,0)=0; lcm = |m|/gcd*|n|, 0 if either is 0 */
+void *malloc(__CPROVER_size_t);
 /* an index the simplifier cannot see through (CBMC 6.11 pointer imprecision work-around, see xtract.NestedElem) */
 static inline U_t cm_opq(U_t i) { U_t r; __CPROVER_assume(r == i); return r; }
 static inline I_t cm_abs(I_t a) { return a < 0 ? (I_t)-a : a; }
